@@ -58,6 +58,11 @@ def groups(tier, seed):
     out.append({"part": "env", "prop": "C04", "hashseed": 3, "backend": "numpy", "dtype": "float64", "count": 8, "rot": seed})
     out.append({"part": "env", "prop": "C02", "hashseed": 1, "backend": "numpy", "dtype": "float64", "count": 10, "rot": seed})
     out.append({"part": "env", "prop": "C02", "hashseed": 3, "backend": "numpy", "dtype": "float64", "count": 10, "rot": seed + 1})
+    # file readers build parent orders from sets; conversions pick cliques / spanning trees by set order
+    out.append({"part": "env", "prop": "C09", "hashseed": 1, "backend": "numpy", "dtype": "float64", "count": 8, "rot": seed})
+    out.append({"part": "env", "prop": "C09", "hashseed": 2, "backend": "numpy", "dtype": "float64", "count": 8, "rot": seed + 3})
+    out.append({"part": "env", "prop": "C14", "hashseed": 2, "backend": "numpy", "dtype": "float64", "count": 20, "rot": seed})
+    out.append({"part": "env", "prop": "C12", "hashseed": 3, "backend": "numpy", "dtype": "float64", "count": 8, "rot": seed})
     return out
 
 
@@ -471,7 +476,7 @@ def _env(st, g):
     import importlib
 
     mod = importlib.import_module("mc.props." + g["prop"].lower())
-    allg = [x for x in mod.groups("quick", 0) if x.get("kind") != "mn5"]
+    allg = [x for x in mod.groups("quick", 0) if x.get("kind") not in ("mn5", "tri5") and x.get("part") not in ("s2p5", "pc5", "star")]
     # deterministic spread over the module's group list (rotated by VERIF_SEED)
     step = max(1, len(allg) // g["count"])
     sel = [allg[(i * step + g["rot"]) % len(allg)] for i in range(g["count"])]
@@ -492,7 +497,12 @@ def _env(st, g):
     tag = f"[hashseed={g['hashseed']},{g['backend']},{g['dtype']}]"
     st.states += 1
     st.nt((g["prop"], g["hashseed"], g["backend"], g["dtype"]))
+    from mc import findings
+
     for v in sub.violations:
+        if findings.match(g["prop"], v):
+            st.bump("inner-known-finding:" + g["prop"])  # recorded under that property's own check
+            continue
         st.violation(g["prop"] + ":" + str(v["site"]) + tag, v["kind"], {"g": g, "site": g["prop"] + ":" + str(v["site"]) + tag, "api": None, "inner": v["case"]}, v["observed"], v["expected"])
     st.evals += sub.evals
     st.compared += sub.compared
